@@ -24,11 +24,15 @@ import stixgen
 from props import schema_common as sc
 
 MANIFEST = {
-    "text": "Coq theorems over the schema-interpreter model (all inputs, all fuels): a strict run that succeeds yields an "
-            "object with no custom content at any depth; an allow-mode run that succeeds with flag hc has hc = false iff the "
-            "strict run on its encoding succeeds. Model tied to /repo by regenerated class tables and a correspondence run "
-            "(including the flag); the property itself is evaluated on the real library with custom content injected at "
-            "every nesting site of generated objects of every class.",
+    "text": "Coq theorems over the schema-interpreter model (all inputs, all fuels): under allow_custom=False no property "
+            "cleaner returns a flagged value, and a constructor / parse returns a flagged object only through the "
+            "custom_properties loophole (never, with the parse guard); a run that returns a custom-free object does not depend "
+            "on the allow_custom switch (repaired reference inversion); flag_iff_strict_reparse_partial: an allow-mode run "
+            "returns flag false exactly when the strict run on the object's own encoding succeeds (constructor level, the "
+            "classes of the regenerated tables that pass closed_ok: 116 of 123, plain JSON input); refuted-variant witnesses on "
+            "the generated tables. Model tied to /repo by regenerated class tables and a correspondence run (flag + strict "
+            "reparse outcome); the property itself is evaluated on the real library with custom content injected at every "
+            "nesting site of generated objects of every class.",
     "design_ref": "DESIGN.md 6/C02,C03,C04,C01 (T C04)",
     "note": "Trusted: Coq kernel + vm_compute, tr_tables translator, frozen spec tables (which sites exist), the generator. "
             "Store-level allow_custom forwarding is covered by C14's call-site table.",
